@@ -563,6 +563,132 @@ fn s_keys() -> Result<(), String> {
     Ok(())
 }
 
+/// insert / update / delete / select against a plain in-memory model, with the frame condition
+fn s_relational() -> Result<(), String> {
+    type Tab = Vec<(i32, Option<String>)>;
+    fn read(p: &mut Package<Medium>, t: &str) -> Result<Tab, String> {
+        let rows = p.select_rows(Select::table(t)).map_err(|e| format!("select failed: {}", e))?;
+        let n = rows.len();
+        let v: Tab = rows.map(|r| (r[0].as_int().unwrap(), r[1].as_str().map(|s| s.to_string()))).collect();
+        if v.len() != n {
+            return Err(format!("Rows::len() reported {} rows but {} were yielded", n, v.len()));
+        }
+        Ok(v)
+    }
+    fn agree(p: &mut Package<Medium>, what: &str, t: &Tab, u: &Tab) -> Result<(), String> {
+        let (gt, gu) = (read(p, "T")?, read(p, "U")?);
+        if &gt != t {
+            return Err(format!("{}: table T reads {:?}, the model says {:?}", what, gt, t));
+        }
+        if &gu != u {
+            return Err(format!("{}: table U (not the statement's table) reads {:?}, the model says {:?}", what, gu, u));
+        }
+        let mut buf = Vec::new();
+        p.read_stream("Blob").map_err(|e| e.to_string())?.read_to_end(&mut buf).map_err(|e| e.to_string())?;
+        if buf != b"blob-bytes" {
+            return Err(format!("{}: the unrelated stream changed", what));
+        }
+        if p.summary_info().subject() != Some("subject") {
+            return Err(format!("{}: the summary information changed", what));
+        }
+        Ok(())
+    }
+    let m = Medium::new();
+    let mut p = Package::create(PackageType::Installer, m.clone()).map_err(|e| e.to_string())?;
+    p.create_table("T", cols()).map_err(|e| e.to_string())?;
+    p.create_table("U", cols()).map_err(|e| e.to_string())?;
+    p.summary_info_mut().set_subject("subject");
+    p.write_stream("Blob").map_err(|e| e.to_string())?.write_all(b"blob-bytes").map_err(|e| e.to_string())?;
+    let mut t: Tab = Vec::new();
+    let mut u: Tab = Vec::new();
+    let s = |x: &str| Some(x.to_string());
+    // inserts
+    p.insert_rows(Insert::into("U").rows(vec![vec![Value::Int(1), Value::from("u1")], vec![Value::Int(2), Value::Null]])).map_err(|e| e.to_string())?;
+    u.extend([(1, s("u1")), (2, None)]);
+    agree(&mut p, "after INSERT INTO U", &t, &u)?;
+    p.insert_rows(Insert::into("T").rows(vec![
+        vec![Value::Int(3), Value::from("c")],
+        vec![Value::Int(1), Value::from("a")],
+        vec![Value::Int(2), Value::Null],
+        vec![Value::Int(4), Value::from("a")],
+    ]))
+    .map_err(|e| e.to_string())?;
+    t.extend([(1, s("a")), (2, None), (3, s("c")), (4, s("a"))]);
+    agree(&mut p, "after INSERT INTO T", &t, &u)?;
+    // selects with conditions, projections in the requested order
+    for (what, cond, keep) in [
+        ("K > 1", Expr::col("K").gt(Expr::integer(1)), Box::new(|r: &(i32, Option<String>)| r.0 > 1) as Box<dyn Fn(&(i32, Option<String>)) -> bool>),
+        ("S = 'a'", Expr::col("S").eq(Expr::string("a")), Box::new(|r: &(i32, Option<String>)| r.1.as_deref() == Some("a"))),
+        ("S = NULL", Expr::col("S").eq(Expr::null()), Box::new(|r: &(i32, Option<String>)| r.1.is_none())),
+        ("K < 0", Expr::col("K").lt(Expr::integer(0)), Box::new(|_r: &(i32, Option<String>)| false)),
+    ] {
+        let rows = p.select_rows(Select::table("T").columns(&["S", "K"]).with(cond)).map_err(|e| e.to_string())?;
+        let n = rows.len();
+        let got: Vec<(Option<String>, i32)> = rows.map(|r| (r[0].as_str().map(|x| x.to_string()), r[1].as_int().unwrap())).collect();
+        let want: Vec<(Option<String>, i32)> = t.iter().filter(|r| keep(r)).map(|r| (r.1.clone(), r.0)).collect();
+        if got != want || n != want.len() {
+            return Err(format!("SELECT S, K FROM T WHERE {} returned {:?} (len() {}), the model says {:?}", what, got, n, want));
+        }
+    }
+    // updates
+    p.update_rows(Update::table("T").set("S", Value::from("z")).with(Expr::col("K").ge(Expr::integer(3)))).map_err(|e| e.to_string())?;
+    for r in t.iter_mut().filter(|r| r.0 >= 3) {
+        r.1 = s("z");
+    }
+    agree(&mut p, "after UPDATE T SET S = 'z' WHERE K >= 3", &t, &u)?;
+    p.update_rows(Update::table("T").set("S", Value::Null).with(Expr::col("S").eq(Expr::string("a")))).map_err(|e| e.to_string())?;
+    for r in t.iter_mut().filter(|r| r.1.as_deref() == Some("a")) {
+        r.1 = None;
+    }
+    agree(&mut p, "after UPDATE T SET S = NULL WHERE S = 'a'", &t, &u)?;
+    p.update_rows(Update::table("U").set("S", Value::from("all"))).map_err(|e| e.to_string())?;
+    for r in u.iter_mut() {
+        r.1 = s("all");
+    }
+    agree(&mut p, "after UPDATE U SET S = 'all'", &t, &u)?;
+    // two assignments in one statement, and a partially consumed iterator's len()
+    p.create_table("W", vec![Column::build("K").primary_key().int32(), Column::build("S").nullable().string(0), Column::build("N").nullable().int16()])
+        .map_err(|e| e.to_string())?;
+    p.insert_rows(Insert::into("W").rows(vec![vec![Value::Int(1), Value::from("p"), Value::Int(10)], vec![Value::Int(2), Value::from("q"), Value::Int(20)], vec![Value::Int(3), Value::Null, Value::Null]]))
+        .map_err(|e| e.to_string())?;
+    p.update_rows(Update::table("W").set("N", Value::Int(7)).set("S", Value::from("both")).with(Expr::col("K").ne(Expr::integer(2)))).map_err(|e| e.to_string())?;
+    {
+        let mut rows = p.select_rows(Select::table("W")).map_err(|e| e.to_string())?;
+        if rows.len() != 3 {
+            return Err(format!("fresh Rows over 3 rows reports len() {}", rows.len()));
+        }
+        let first = rows.next().ok_or("no first row")?;
+        if rows.len() != 2 {
+            return Err(format!("after one next() Rows over 3 rows reports len() {}", rows.len()));
+        }
+        let mut got: Vec<(Value, Value, Value)> = vec![(first[0].clone(), first[1].clone(), first[2].clone())];
+        got.extend(rows.map(|r| (r[0].clone(), r[1].clone(), r[2].clone())));
+        let want = vec![
+            (Value::Int(1), Value::from("both"), Value::Int(7)),
+            (Value::Int(2), Value::from("q"), Value::Int(20)),
+            (Value::Int(3), Value::from("both"), Value::Int(7)),
+        ];
+        if got != want {
+            return Err(format!("after UPDATE W SET N = 7, S = 'both' WHERE K != 2 the table reads {:?}, the model says {:?}", got, want));
+        }
+    }
+    agree(&mut p, "after UPDATE W", &t, &u)?;
+    // deletes
+    p.delete_rows(Delete::from("T").with(Expr::col("K").eq(Expr::integer(2)).or(Expr::col("S").eq(Expr::string("z")).and(Expr::col("K").lt(Expr::integer(4)))))).map_err(|e| e.to_string())?;
+    t.retain(|r| !(r.0 == 2 || (r.1.as_deref() == Some("z") && r.0 < 4)));
+    agree(&mut p, "after DELETE FROM T WHERE K = 2 OR S = 'z' AND K < 4", &t, &u)?;
+    p.delete_rows(Delete::from("T").with(Expr::col("K").eq(Expr::integer(99)))).map_err(|e| e.to_string())?;
+    agree(&mut p, "after DELETE FROM T WHERE K = 99", &t, &u)?;
+    p.flush().map_err(|e| e.to_string())?;
+    drop(p);
+    let mut q = Package::open(m.clone()).map_err(|e| format!("reopen failed: {}", e))?;
+    agree(&mut q, "after reopen", &t, &u)?;
+    q.delete_rows(Delete::from("U")).map_err(|e| e.to_string())?;
+    u.clear();
+    agree(&mut q, "after DELETE FROM U", &t, &u)?;
+    Ok(())
+}
+
 /// catch_unwind without the default hook's "panicked at" output (the driver reads that as an uncaught panic)
 fn quiet_catch<T>(f: impl FnOnce() -> T) -> std::thread::Result<T> {
     let hook = std::panic::take_hook();
@@ -628,6 +754,7 @@ fn s_join_names() -> Result<(), String> {
 
 #[test]
 fn replay_protocol() {
+    report("relational", s_relational());
     report("keys", s_keys());
     report("join_names", s_join_names());
     report("select_names", s_select_names());
